@@ -13,6 +13,9 @@
                                            queue entries (tree), flat gate list, inlining spec
         | "EXPR" expr                      argument evaluation (QV.Model.QasmExpr) on IEEE doubles:
                                            bits of argValue | NONE, bits of eval, isSum
+        | "RESG" kind nops op*nops          kind := G | S | P ; result built from gates holding shots /
+                                           a samples array / probabilities (QV.Model.SerialGates):
+                                           has_samples before the dump, loaded samples same|diff|free
   expr := "N" bits | "P" | "NEG" expr | "B" op expr expr        op := + | - | * | /
   xstmt := "D" name nf formal*nf nq qformal*nq nb call*nb | "C" call
   call := name na arg*na nq qarg*nq     arg := "V" token | "S" ident     qarg := "I" n | "N" ident
@@ -24,6 +27,7 @@ import QV.Model.Qasm
 import QV.Model.Serial
 import QV.Model.QasmDef
 import QV.Model.QasmExpr
+import QV.Model.SerialGates
 open QV.Qasm QV.Serial
 
 structure Rd where
@@ -204,6 +208,12 @@ def symOracle : Oracle Term Term :=
       | s => .count s,
     drawS := .drawS, drawF := .drawF, expand := .expand }
 
+def symOracleG : QV.SerialGates.Oracle Term Term :=
+  { count := fun s => match s with
+      | .expand f _ => f
+      | s => .count s,
+    drawS := .drawS, drawF := .drawF, expand := .expand }
+
 def handle (line : String) : String :=
   let toks := (line.splitOn " ").filter (· ≠ "") |>.toArray
   let run : P String := do
@@ -257,6 +267,19 @@ def handle (line : String) : String :=
         | none, none => "free"
         | _, _ => if l.obsFreq symOracle = r.obsFreq symOracle then "same" else "diff"
       pure s!"{sOk} {fOk}"
+    | "RESG" => do
+      let k ← nextTok
+      let nops ← nextNat
+      let ops ← rep nops (do let t ← nextTok; pure (if t = "S" then QV.SerialGates.Op.samples else QV.SerialGates.Op.frequencies))
+      let r0 : QV.SerialGates.Res Term Term :=
+        if k = "G" then QV.SerialGates.ofGates (some .given) 9
+        else if k = "S" then QV.SerialGates.ofSamples .given 9 else QV.SerialGates.ofProbs 9
+      let r := r0.run symOracleG ops
+      let l : QV.SerialGates.Res Term Term := QV.SerialGates.load (r.dump false) 1000
+      let same := if r.hasSamples then
+          (if l.hasSamples && l.obsSamples symOracleG = r.obsSamples symOracleG then "same" else "diff")
+        else "free"
+      pure s!"{r.hasSamples} {same}"
     | "EXPR" => do
       let e ← nextExpr
       let a := match QV.QasmExpr.argValue (fun _ => (0 : Float)) e with
